@@ -3,17 +3,17 @@
 // run: ./check C14 --replay replays/C14/rand.c14_reach_i16.rs
 /// Test generated for harness `rand::c14_reach_i16` 
 ///
-/// Check for `cover`: "cover condition: incl && v == e && s == < i16 > :: MIN"
+/// Check for `assertion`: ""every value of the range is produced by some raw output""
 
 #[test]
-fn kani_concrete_playback_c14_reach_i16_10826813904447857468() {
+fn kani_concrete_playback_c14_reach_i16_15949718903386643108() {
     let concrete_vals: Vec<Vec<u8>> = vec![
         // -32768
         vec![0, 128],
-        // 1063
-        vec![39, 4],
-        // 1063
-        vec![39, 4],
+        // 32767
+        vec![255, 127],
+        // -32768
+        vec![0, 128],
         // 1
         vec![1],
     ];
